@@ -139,7 +139,13 @@ func vSubst(expr, k, v string) string {
 func VH_C10(ci, variant, n, B int) {
 	c := vC10Cases[ci]
 	PlanBatchSize = B
-	vLazyFormat(true) // the text of a folded number (Explain only) is opaque
+	lazy := true // the text of a folded number (Explain only) is opaque ...
+	for i := 0; i+3 < len(c.expr); i++ {
+		if c.expr[i:i+4] == "str(" {
+			lazy = false // ... unless the rendering is the function's value
+		}
+	}
+	vLazyFormat(lazy)
 	if variant == 0 {
 		st := vSymStore(n, 0, 1, c.vmin, c.vmax, c.kalpha, c.valpha)
 		q := "select key, " + vSubst(c.expr, "key", "value") + " where key >= ''"
